@@ -34,6 +34,22 @@ extern "C" {
     fn c17dep_entry(x: u64) -> u64;
 }
 
+// functions without a linkage name (their path exists only as the chain of DW_TAG_namespace parents)
+pub mod ffi {
+    #[no_mangle]
+    #[inline(never)]
+    pub extern "C" fn c17_hook(x: u64) -> u64 {
+        std::hint::black_box(x) + 40
+    }
+    pub mod deep {
+        #[no_mangle]
+        #[inline(never)]
+        pub extern "C" fn c17_deep_hook(x: u64) -> u64 {
+            std::hint::black_box(x) + 41
+        }
+    }
+}
+
 use a::b::Tr;
 
 fn main() {
@@ -51,6 +67,7 @@ fn main() {
     let c1 = |x: u64| x + k;
     let c2 = |x: u64| x * k;
     acc += c1(1) + c2(2);
+    acc += ffi::c17_hook(1) + ffi::deep::c17_deep_hook(2) + a::b::c17_ab_hook(3);
     acc += unsafe { c17dep_entry(acc) };
     println!("c17 {}", acc);
 }
